@@ -31,6 +31,9 @@ type c10Assoc struct {
 	// teardown begins.
 	InFlight string `json:"inflight,omitempty"`
 	LeadMs   int    `json:"lead_ms,omitempty"`
+	// Reassoc (hbfail): once the first heartbeat has gone unanswered the peer sets the association up again on the
+	// same connection (a control plane that restarted) and then stays silent: the teardown must still come
+	Reassoc bool `json:"reassoc,omitempty"`
 }
 
 type c10Case struct {
@@ -60,6 +63,7 @@ func genC10(t *rapid.T) c10Case {
 		a := c10Assoc{Sess: rapid.IntRange(0, 3).Draw(t, "sess"), Trigger: rapid.SampledFrom(trig).Draw(t, "trigger"),
 			JitterMs: rapid.IntRange(0, 30).Draw(t, "jit"), InFlight: rapid.SampledFrom([]string{"", "mod", "est", "del"}).Draw(t, "inflight"),
 			LeadMs: rapid.IntRange(0, 12).Draw(t, "lead")}
+		a.Reassoc = a.Trigger == "hbfail" && rapid.IntRange(0, 2).Draw(t, "reassoc") == 0
 		if a.InFlight == "est" && a.Trigger == "none" && !c.Stop {
 			a.InFlight = "mod" // the session of an in-flight establishment is only accounted for when its association ends
 		}
@@ -188,6 +192,7 @@ func runC10(c c10Case, ev *Ev) (err error) {
 			}
 			seq := uint32(1000)
 			fired := false
+			sentRe := false
 			sentIF := a.InFlight == ""
 			lead := time.Duration(a.LeadMs) * time.Millisecond
 			var verdictAt time.Time // hbfail: when the agent is expected to give the peer up
@@ -218,6 +223,10 @@ func runC10(c c10Case, ev *Ev) (err error) {
 							break
 						}
 					}
+				}
+				if a.Reassoc && !sentRe && !verdictAt.IsZero() {
+					sentRe = true
+					_ = p.Send(model.AssocSetupTS(0x7c00+uint32(i), run.Peers[i].NodeID, 0))
 				}
 				if !sentIF {
 					var aim time.Time
@@ -442,6 +451,12 @@ func runC10(c c10Case, ev *Ev) (err error) {
 	ev.Label(fmt.Sprintf("stop=%v/assocs=%d/triggers=%d", c.Stop, len(c.Assocs), nTrig))
 	if c.Churn > 0 {
 		ev.Label("stop/new-peers-arriving")
+	}
+	for _, a := range c.Assocs {
+		if a.Reassoc {
+			ev.Label("hbfail/re-association-into-the-outstanding-heartbeat")
+			break
+		}
 	}
 	ev.Case(c, nTrig >= 2 || (c.Stop && len(c.Assocs) >= 1), len(c.Assocs))
 	return nil
